@@ -40,3 +40,16 @@ Theorem C08_next_token_terminates : forall text re_at c,
   exists q, next_token text re_at c pos = Some q /\ pos <= q <= len text.
 Proof. exact next_token_total. Qed.
 Print Assumptions C08_next_token_terminates.
+
+(* the engine itself raises nothing foreign: whenever parse() ends with anything but success or an ordinary failure and no
+   semantic action raised (ghost log [raised] empty, see C06), the outcome is fuel exhaustion (RecursionError), the hang
+   marker of an empty-matching whitespace pattern, a leaf outside the engine model (Foreign 0: the @-matchers of
+   Lib/Matchers.v) or the call of an undefined rule (Foreign 1: FailedRef, a ParseException) - for every grammar, text,
+   configuration and fuel, through every construct, the memo, seeds and the seed-growing loop *)
+From TatsuV Require Engine.Value Engine.Syntax Engine.Engine Engine.Calls Engine.RaiseProof.
+Theorem C08_engine_raises_nothing_foreign :
+  forall text re_at isalnum isalpha lower upper ic unsafe rules ec act lineat n start k st,
+  Calls.parse_with text re_at isalnum isalpha lower upper ic unsafe rules ec act lineat n start = (Engine.Fatal k, st) ->
+  Calls.raised st = [] -> RaiseProof.engine_made k.
+Proof. exact RaiseProof.engine_raises_nothing_foreign. Qed.
+Print Assumptions C08_engine_raises_nothing_foreign.
